@@ -148,6 +148,26 @@ def run(ctx):
     r.check(any(n.get("k") in ("bin", "call") and n.get("op") == "=" and "skipValue" in expr_str(n) and "None" in expr_str(n) for n in sp.nodes),
             "start|skip-value-reset", "", "skip value of a previous build is not cleared when the command starts", sp)
 
+    r = rep.rule("R-PRIOR-SUCCESS-ONLY", "only a successful prior result enables the update-without-running shortcut (a recorded failure must be retried)", floor=2)
+    pp = prog.fn("ExternalCommand::providePriorValue")
+    bpp = BranchFacts(pp, kill="assign")
+    sets = [n for n in pp.nodes if n.get("k") == "bin" and n["op"] == "=" and expr_str(n.child("l")) == "hasPriorResult"]
+    ok = len(sets) == 1 and core(sets[0].child("r")).get("v") is True and any(p and a == "value.isSuccessfulCommand()" for a, p in (bpp.at_node(sets[0]) or frozenset()))
+    r.check(ok, "providePriorValue|prior-result-only-if-successful", "", "hasPriorResult is set for a prior value that is not a successful command", pp)
+    sc = [b for b in ex.blocks.values() if b.cond() is not None and "hasPriorResult" in expr_str(b.cond())]
+    upd = [c for c in ex.nodes if c.get("k") == "call" and c.get("op") == "()" and expr_str(core(c.child("obj"))) == "resultFn" and
+           any(p and a == "hasPriorResult" for a, p in (bfx.at_node(c) or frozenset()))]
+    ok = len(upd) == 1 and any(p and a == "canUpdateIfNewer" for a, p in (bfx.at_node(upd[0]) or frozenset())) and \
+        any(p and "canUpdateIfNewerWithResult" in a for a, p in (bfx.at_node(upd[0]) or frozenset()))
+    r.check(ok, "execute|shortcut-needs-prior-success", "", "the update-without-running shortcut is not guarded by canUpdateIfNewer && hasPriorResult && canUpdateIfNewerWithResult", ex)
+    writers = set()
+    for g_ in prog.functions.values():
+        if g_.cls.endswith("ExternalCommand"):
+            for n in g_.nodes:
+                if n.get("k") == "bin" and n["op"] == "=" and expr_str(n.child("l")) == "hasPriorResult" and core(n.child("r")).get("v") is True:
+                    writers.add(g_.name.split("::")[-1])
+    r.check(writers == {"providePriorValue"}, "hasPriorResult|single-writer", "", "hasPriorResult is set to true in %s" % sorted(writers))
+
     r = rep.rule("R-STATUS-MAP", "the process status maps Failed -> failed command, Cancelled -> cancelled command, Succeeded -> computed result; nothing "
                                  "else reports a result", floor=3)
     lam = [l for l in prog.lambdas_of(ex) if l.params and "ProcessResult" in l.param_type(0)]
@@ -218,6 +238,8 @@ def nth(f, n):
 
 
 VARIANTS = [
+    dict(name="prior-failure-enables-shortcut", file="lib/BuildSystem/ExternalCommand.cpp", old="  if (value.isSuccessfulCommand()) {\n    hasPriorResult = true;",
+         new="  if (!value.isInvalid()) {\n    hasPriorResult = true;", expect=("R-PRIOR-SUCCESS-ONLY", "prior-result-only-if-successful")),
     dict(name="symlink-cancelled-not-failed-input", file="lib/BuildSystem/BuildSystem.cpp",
          old="    // If the value was a failed command, propagate the failure.\n    if (value.isFailedCommand() || value.isPropagatedFailureCommand() ||\n        value.isCancelledCommand())\n      return BuildValue::makeFailedInput();\n    if (value.isSkippedCommand())\n      return BuildValue::makeSkippedCommand();\n\n    // Otherwise, we should have a successful command -- return the actual\n    // result for the output.\n    assert(value.isSuccessfulCommand());\n\n    auto info = value.getOutputInfo();",
          new="    // If the value was a failed command, propagate the failure.\n    if (value.isFailedCommand() || value.isPropagatedFailureCommand())\n      return BuildValue::makeFailedInput();\n    if (value.isSkippedCommand())\n      return BuildValue::makeSkippedCommand();\n\n    // Otherwise, we should have a successful command -- return the actual\n    // result for the output.\n    assert(value.isSuccessfulCommand());\n\n    auto info = value.getOutputInfo();",
